@@ -666,13 +666,27 @@ def tuple_layout(ix, R):
                             ('taurex/model/model.py::ForwardModel.__setitem__', 3, 1)):
         with R.guard('8.pos', 'SIB', site, 'positional access'):
             f = ix.func(site)
-            cs = [n for n in ast.walk(f.node) if isinstance(n, ast.Call) and isinstance(n.func, ast.Subscript)]
-            c = one(cs, 'call through a tuple slot')
-            k = c.func.slice
+            fl = mkflow(ix, site)
+            r = the_return(fl)
+            ca = atom_of(fl, r.value)
+            # the returned value is <table>[key][slot](<arguments>), however many temporaries it goes through
+            if ca is None or ca.head != 'callexpr' or ca.extra:
+                raise AnalysisError('the returned value is not a call through a tuple slot: %s' % fmt(fl, r.value))
+            sa_ = atom_of(fl, ca.args[0])
+            if sa_ is None or sa_.head != 'idx' or len(sa_.args) != 2 or (sa_.args[1].const() if isinstance(sa_.args[1], RF) else None) is None:
+                raise AnalysisError('the called object is not a constant slot of an entry: %s' % fmt(fl, ca.args[0]))
+            ea = atom_of(fl, sa_.args[0])
+            ps = f.params()
+            if ea is None or ea.head != 'idx' or not fl.tab.equal(ea.args[1], fl.tab.name(ps[1])):
+                raise AnalysisError('the entry is not looked up under the given key: %s' % fmt(fl, sa_.args[0]))
+            k = sa_.args[1].const()
+            nargs = len(ca.args) - 1
+            okv = argc == 0 or (nargs == 1 and fl.tab.equal(ca.args[1], fl.tab.name(ps[2])))
             R.check('8.pos', 'SIB', site,
-                    '%s calls slot %d (%s) with %d argument(s)' % (f.name, idx, FIT_LAYOUT[idx], argc),
-                    isinstance(k, ast.Constant) and k.value == idx and len(c.args) == argc,
-                    key=unparse(c), detail=unparse(c), loc=f.loc(c))
+                    '%s calls slot %d (%s) with %d argument(s)%s' % (f.name, idx, FIT_LAYOUT[idx], argc,
+                                                                     ' (the given value)' if argc else ''),
+                    k == idx and nargs == argc and okv,
+                    key=fmt(fl, r.value), detail=fmt(fl, r.value), loc=f.loc(r.node))
     # views of derived
     for nm, k in (('derived_names', 0), ('derived_latex', 1), ('derived_values', 2), ('fit_values_nomode', 2)):
         site = OPT + '.' + nm
